@@ -6,6 +6,20 @@
 (* trace validation runs (MInit / MStep / MDone).  See TraceLog.tla for the     *)
 (* state machine and the reading of the property; TraceLogMC checks the laws    *)
 (* (Accepts is neither over-strict nor vacuous, MatchLog <=> Accepts).          *)
+(*                                                                              *)
+(* Thread lifetimes.  The statement promises that the log "contains, for every  *)
+(* recording thread, every recorded ... event in recording order"; it does not  *)
+(* promise a tid of its own to every thread that ever recorded.  The recorder   *)
+(* keys its lists by std::thread::id, and the OS hands the id of a thread that  *)
+(* has ended to a thread created later, so two threads that never coexisted may *)
+(* legitimately share a tid: the second one's events then follow the first      *)
+(* one's.  P is the "ended before the other was created" relation on threads    *)
+(* (a strict partial order; an interval order, so a set of pairwise comparable  *)
+(* threads is a chain with a unique order).  The contract: the relevant entries *)
+(* of one tid are the CONCATENATION, in P order, of the recorded sequences of a *)
+(* P-chain of threads; every thread that recorded anything occurs in exactly    *)
+(* one tid.  Threads whose lifetimes overlapped are P-incomparable and can      *)
+(* therefore never share a tid; with P = {} this is the one-to-one contract.    *)
 EXTENDS Integers, Sequences, FiniteSets, TLC
 
 CONSTANT Threads      \* recording threads, 1..T
@@ -40,18 +54,37 @@ Active(r)     == {t \in Threads : r[t] # <<>>}
 Relevant(e, cn) == e.ph \in {"B", "E", "i"} \/ (e.ph = "C" /\ e.name \in cn)
 KnownPh(e)      == e.ph \in Kinds \cup {"M"}
 
+\* ---- thread lifetimes: P is a set of pairs <<t, u>>, "t had ended before u was created" ----
+IsChain(S, P)  == \A t, u \in S : t # u => (<<t, u>> \in P \/ <<u, t>> \in P)
+\* the threads of a chain in P order
+ChainSeq(S, P) == [i \in 1..Cardinality(S) |-> CHOOSE t \in S : Cardinality({u \in S : <<u, t>> \in P}) = i - 1]
+RECURSIVE Concat(_)
+Concat(ss)     == IF ss = <<>> THEN <<>> ELSE Head(ss) \o Concat(Tail(ss))
+\* what a tid shared by the chain S holds
+ChainLog(S, P, r) == LET c == ChainSeq(S, P) IN Concat([i \in DOMAIN c |-> RenderSeq(r[c[i]])])
+\* the threads that ended before another recording thread was created (only these can share a tid)
+Sequential(r, P) == \E t, u \in Active(r) : <<t, u>> \in P
+
+\* every admissible content of the log, as a list of per-tid sequences: one per partition of the recording threads into chains
+Groupings(r, P) ==
+  LET act == Active(r)
+      T   == Cardinality(Threads)
+      \* a partition, canonically: every thread points to the smallest thread of its block
+      Reps == {f \in [act -> act] : \A t \in act : f[t] <= t /\ f[f[t]] = f[t]}
+      Blk(f, b) == {t \in act : f[t] = b}
+      ok  == {f \in Reps : \A b \in act : IsChain(Blk(f, b), P)}
+  IN {SelectSeq([b \in 1..T |-> IF b \in act /\ f[b] = b THEN ChainLog(Blk(f, b), P, r) ELSE <<>>], LAMBDA q : q # <<>>) : f \in ok}
+
 \* ---- the contract, declaratively -------------------------------------------
-Accepts(log, r) ==
+Accepts(log, r, P) ==
   LET cn   == CNames(r)
       rel  == SelectSeq(log, LAMBDA e : Relevant(e, cn))
       tids == {rel[i].tid : i \in DOMAIN rel}
       By(g) == LET s == SelectSeq(rel, LAMBDA e : e.tid = g) IN [i \in DOMAIN s |-> Proj(s[i])]
       act  == Active(r)
   IN /\ \A i \in DOMAIN log : KnownPh(log[i])
-     /\ Cardinality(tids) = Cardinality(act)
      /\ \E m \in [act -> tids] :
-          /\ \A t1, t2 \in act : m[t1] = m[t2] => t1 = t2
-          /\ \A t \in act : By(m[t]) = RenderSeq(r[t])
+          \A g \in tids : LET S == {t \in act : m[t] = g} IN IsChain(S, P) /\ By(g) = ChainLog(S, P, r)
 
 \* per-tid begin/end nesting of the relevant entries of a log
 LogNested(log, cn) ==
@@ -60,25 +93,30 @@ LogNested(log, cn) ==
        LET s == SelectSeq(rel, LAMBDA e : e.tid = g) IN Nested([i \in DOMAIN s |-> s[i].ph])
 
 \* ---- the contract, incrementally (what trace validation runs; state of size O(threads)) ----
-\* ms = [map: tid -> thread (a function on the tids met so far), pos: thread -> number of its events found so far].
-\* RecLen(t) / RecAt(t, i) give access to the recorded sequences wherever they are kept.
+\* ms = [map: tid -> the thread whose sequence is currently being found in that tid (a function on the tids met so far),
+\*       pos: thread -> number of its events found so far (> 0: the thread has been placed)].
+\* RecLen(t) / RecAt(t, i) give access to the recorded sequences wherever they are kept; Pr(t, u) is the relation P.
+\* A relevant entry continues the current thread of its tid; only when that thread's sequence is complete may the tid go on
+\* with a thread created after it had ended (P is transitive on a chain, so the last member is all that must be compared).
 MInit == [map |-> <<>>, pos |-> [t \in Threads |-> 0]]
-MRange(ms) == {ms.map[g] : g \in DOMAIN ms.map}
-MStep(ms, e, cn, RecLen(_), RecAt(_, _)) ==
+MStep(ms, e, cn, RecLen(_), RecAt(_, _), Pr(_, _)) ==
   IF ~KnownPh(e) THEN {}
   ELSE IF ~Relevant(e, cn) THEN {ms}
-  ELSE IF e.tid \in DOMAIN ms.map
-    THEN LET t == ms.map[e.tid] IN
-         IF ms.pos[t] < RecLen(t) /\ Proj(e) = Render(RecAt(t, ms.pos[t] + 1))
-           THEN {[ms EXCEPT !.pos[t] = @ + 1]} ELSE {}
-    ELSE {[map |-> (e.tid :> t) @@ ms.map, pos |-> [ms.pos EXCEPT ![t] = 1]] :
-            t \in {u \in Threads \ MRange(ms) : RecLen(u) > 0 /\ Proj(e) = Render(RecAt(u, 1))}}
+  ELSE LET fresh == {u \in Threads : ms.pos[u] = 0 /\ RecLen(u) > 0 /\ Proj(e) = Render(RecAt(u, 1))}
+           Place(u) == [map |-> (e.tid :> u) @@ ms.map, pos |-> [ms.pos EXCEPT ![u] = 1]]
+       IN IF e.tid \in DOMAIN ms.map
+            THEN LET t == ms.map[e.tid] IN
+                 IF ms.pos[t] < RecLen(t)
+                   THEN IF Proj(e) = Render(RecAt(t, ms.pos[t] + 1)) THEN {[ms EXCEPT !.pos[t] = @ + 1]} ELSE {}
+                   ELSE {Place(u) : u \in {v \in fresh : Pr(t, v)}}
+            ELSE {Place(u) : u \in fresh}
 MDone(ms, RecLen(_)) == \A t \in Threads : ms.pos[t] = RecLen(t)
 
-RECURSIVE MRun(_, _, _, _)
-MRun(S, log, i, r) ==
+RECURSIVE MRun(_, _, _, _, _)
+MRun(S, log, i, r, P) ==
   IF i > Len(log) THEN S
-  ELSE MRun(UNION {MStep(ms, log[i], CNames(r), LAMBDA t : Len(r[t]), LAMBDA t, k : r[t][k]) : ms \in S}, log, i + 1, r)
-MatchLog(log, r) == \E ms \in MRun({MInit}, log, 1, r) : MDone(ms, LAMBDA t : Len(r[t]))
+  ELSE MRun(UNION {MStep(ms, log[i], CNames(r), LAMBDA t : Len(r[t]), LAMBDA t, k : r[t][k], LAMBDA t, u : <<t, u>> \in P) : ms \in S},
+            log, i + 1, r, P)
+MatchLog(log, r, P) == \E ms \in MRun({MInit}, log, 1, r, P) : MDone(ms, LAMBDA t : Len(r[t]))
 
 ===============================================================================
